@@ -44,15 +44,89 @@ def _project(draw, v):
     return v
 
 
+def _placeholders(draw, v, top=True):
+    """Put `...` placeholders into a (projected) value the way substitution allows them: as the first
+    or last item of a list (the rest of the list is dropped on that side), or as a dict value."""
+    if isinstance(v, list):
+        out = [_placeholders(draw, x, False) for x in v]
+        if out and draw(st.integers(0, 2)) == 0:
+            cut = draw(st.integers(1, len(out)))
+            out = ([...] + out[cut:]) if draw(st.booleans()) else (out[:len(out) - cut] + [...])
+        return out
+    if isinstance(v, dict):
+        return {k: (... if draw(st.integers(0, 5)) == 0 else _placeholders(draw, x, False))
+                for k, x in v.items()}
+    return v
+
+
+@st.composite
+def _grid_spec(draw):
+    """float with a precision whose bounds hug grid points: exactly on them, one ulp inside/outside,
+    or a computed sum such as 0.2 + 0.7 that lands next to one (where scaling by 10**p is inexact)."""
+    import math
+    p = draw(st.integers(1, 6))
+    scale = 10 ** p
+    k1 = draw(st.integers(-3 * scale, 3 * scale))
+    k2 = k1 + draw(st.integers(0, 3))
+    lo_g, hi_g = k1 / scale, k2 / scale
+
+    def hug(g, k, sign):
+        a = draw(st.integers(1, 9))
+        choices = [g, g, math.nextafter(g, sign * math.inf), math.nextafter(g, -sign * math.inf),
+                   (k - a) / scale + a / scale, g + sign * 0.3 / scale]
+        return draw(st.sampled_from(choices))
+    s = {"t": "float", "precision": p}
+    which = draw(st.sampled_from(["both", "both", "min", "max"]))
+    if which in ("both", "min"):
+        s["min"] = hug(lo_g, k1, -1)
+    if which in ("both", "max"):
+        s["max"] = hug(hi_g, k2, 1)
+    if "min" in s and "max" in s and s["min"] > s["max"]:
+        s["max"] = s["min"]
+    s["order"] = list(draw(st.permutations([k for k in ("min", "max", "precision") if k in s])))
+    cands = [g for g in (lo_g, hi_g, (k1 + 1) / scale) if s.get("min", g) <= g <= s.get("max", g)]
+    w = cands[0] if cands else _NOVAL
+    wrap = draw(st.sampled_from(["bare", "bare", "list", "dict"]))
+    if wrap == "list":
+        return {"t": "list", "form": "typed", "elem": s, "len": ["range", 1, 3]}, ([w] if w != _NOVAL else _NOVAL)
+    if wrap == "dict":
+        return ({"t": "dict", "entries": [{"key": "x", "opt": False, "spec": s}], "relaxed": False},
+                ({"x": w} if w != _NOVAL else _NOVAL))
+    return s, w
+
+
 @st.composite
 def _case(draw):
     depth = draw(st.integers(0, 3))
-    kind = draw(st.sampled_from(["plain", "plain", "plain", "derived", "subst"]))
-    if kind == "subst":
+    kind = draw(st.sampled_from(["plain", "plain", "plain", "derived", "subst", "subst", "grid"]))
+    if kind == "grid":
+        spec, w = draw(_grid_spec())
+    elif kind == "subst" and draw(st.integers(0, 3)) == 0:
+        # a typed list with a length constraint, substituted with a shorter value that ends (or
+        # starts) with `...`: only substitution can produce such an element list + min length
+        elem = draw(specs.spec_strategy(depth=0, sat=True))
+        n = draw(st.integers(2, 4))
+        lf = draw(st.sampled_from([["min", n], ["range", n, n + 2], ["eq", n], ["max", n + 1]]))
+        base = {"t": "list", "form": "typed", "elem": elem, "len": lf}
+        try:
+            w = draw(values.conforming(base))
+            keep = draw(st.integers(0, max(0, len(w) - 1)))
+            v = (w[:keep] + [...]) if draw(st.booleans()) else ([...] + w[len(w) - keep:] if keep else [...])
+            spec = {"t": "subst", "s": base, "v": v}
+            if draw(st.booleans()):
+                spec = {"t": "subst", "s": {"t": "dict", "entries": [{"key": "items", "opt": False, "spec": base}],
+                                            "relaxed": False}, "v": {"items": v}}
+                w = {"items": w}
+        except values.Unsat:
+            spec, w = base, _NOVAL
+    elif kind == "subst":
         base = draw(specs.spec_strategy(depth=depth, sat=True, derived=False))
         try:
             w = draw(values.conforming(base))
-            spec = {"t": "subst", "s": base, "v": _project(draw, w)}
+            v = _project(draw, w)
+            if draw(st.booleans()):
+                v = _placeholders(draw, v)
+            spec = {"t": "subst", "s": base, "v": v}
         except values.Unsat:
             spec, w = base, _NOVAL
     else:
@@ -67,6 +141,16 @@ def _case(draw):
 
 def strategy(tier):
     return _case()
+
+
+def _has_ellipsis(v):
+    if v is Ellipsis:
+        return True
+    if isinstance(v, list):
+        return any(_has_ellipsis(x) for x in v)
+    if isinstance(v, dict):
+        return any(_has_ellipsis(x) for x in v.values())
+    return False
 
 
 def _must_draw(spec):
@@ -143,6 +227,11 @@ def check(case, ctx):
     labs = specs.node_labels(spec)
     for lab in labs:
         ctx.label(lab)
+    if any(s_.get("t") == "float" and "precision" in s_ and ("min" in s_ or "max" in s_)
+           for s_, _ in specs.walk(spec)):
+        ctx.label("grid-hugging-bounds")
+    if spec["t"] == "subst" and _has_ellipsis(spec["v"]):
+        ctx.label("subst-with-placeholders")
     ctx.label("mode:scripted" if r is not None else "mode:seeded")
     if r is not None and r.extremes:
         ctx.label("has-extreme-draw")
@@ -159,7 +248,8 @@ def require(ctx, tier):
     if total == 0 or skipped > 0.1 * (total + skipped):
         raise HarnessError(f"C01: too many cases outside the domain ({skipped} skipped / {total} run): "
                            f"{ {k: v for k, v in L.items() if k.startswith('skip:')} }")
-    for lab in ("t:subst", "t:or", "t:add", "t:required", "ellipsis-list+len", "float:precision",
+    for lab in ("t:subst", "t:or", "t:add", "t:required", "ellipsis-list+len", "float:precision", "grid-hugging-bounds",
+                "subst-with-placeholders",
                 "bound-beyond-default", "str:substr+len", "str:pattern", "has-extreme-draw",
                 "depth>=2", "mode:seeded"):
         if not L.get(lab):
